@@ -169,3 +169,21 @@ def shares_after_simulation():
 
 
 shares_after_simulation()
+
+
+# re-initialising an UNCHANGED model keeps the value arrays themselves: interfaces built from the model share them (contracts above), and
+# set_species / set_parameter write them in place, so a later edit of a value reaches every interface built before - unless some operation
+# in between swaps the array for a new one (seed C08-d: check_species rebinding species_values)
+def reinitialise_keeps_arrays():
+    c = Contract('types', 'Model._initialize', ['C08'], variant='unchanged-model:value-arrays-kept')
+    c.concrete_self = base_model
+    c.ensures('same_array(self.species_values, old(self.species_values)) and arr(self.species_values) == old(arr(self.species_values))',
+              label='same-species-value-array-same-values')
+    c.ensures('same_array(self.params_values, old(self.params_values)) and arr(self.params_values) == old(arr(self.params_values))',
+              label='same-parameter-value-array-same-values')
+    c.opt(verify_only=True)
+    C.REGISTRY[c.key] = c
+    C.ORDER.append(c.key)
+
+
+reinitialise_keeps_arrays()
